@@ -844,7 +844,8 @@ package util
 //@   mode wrap
 //@   requires ndb != nil && cc.Changes != nil && cc.Deletes != nil && ChangesWF(cc) && (forall k string :: k in cc.Deletes ==> cc.Deletes[k] != nil)
 //@   ensures !includeDeletes ==> DBDel == old(DBDel)                                                                                #no-store-delete-unless-asked
-//@   loop 1 invariant idx == iter1 && len(keys) == len(cc.Changes) && len(nodes) == len(cc.Changes) && len(keysStr) == len(cc.Changes) && fresh(keys) && fresh(nodes) && fresh(keysStr)
+//@   loop 1 invariant idx == iter1 && len(keys) == len(cc.Changes) && len(nodes) == len(cc.Changes) && fresh(keys) && fresh(nodes)
+//@   loop 1 invariant len(keysStr) == len(cc.Changes) && fresh(keysStr)                  #incidental-temporary
 //@   loop 1 invariant forall j :: 0 <= j && j < idx ==> nodes[j] != nil && str(keys[j]) == NodeHB(nodes[j], heapof(OriginTracker.Origin))
 //@   loop 2 invariant includeDeletes
 
